@@ -9,6 +9,8 @@ import TexcraftModel.Model.C17NL
 * `sc v ds`          → `M=<int|panic> S=<int|abort>` (`toScaled`, `storeScaled`)
 * `cp max n v…`      → `ok k t… m (v i)…` or `panic` (`compress`)
 * `cpchk max n v… k t… m (v i)…` → `le=<0/1> near=<0/1> min=<0/1>` (`checkCompress` on a claimed result)
+* `tfchk kind n v… k t… m (v i)…` → `le=… near=… min=… zero=…` (`checkTfmTable`: a TFM dimension table read back
+  from a serialised file against the true PLtoTF limit 255/15/15/63 of `kind` 0..3)
 * `nl drop k ne… n (s l)…` → `w (s l)… ; loops (c d)… ; chains (c len d…)… | T | same` where the first part is
   the specification (cut graph; chains for every c with a non-empty chain), `T` is the transcription
   of `new`/`get` (`loops ; chains`, or `panic`/`fuel`) for the ascending iteration order and
@@ -75,6 +77,23 @@ def handle (line : String) : String :=
             if ps.length ≠ k.toNat then "bad-request" else
             let (a, b, c) := checkCompress vals mx.toNat table (ps.map fun (v, i) => (v, i.toNat))
             s!"le={b2i a} near={b2i b} min={b2i c}"
+          | none => "bad-request"
+        | _ => "bad-request"
+      | none => "bad-request"
+    | _ => "bad-request"
+  | "tfchk" :: ws =>
+    -- `tfchk kind n v… k t… m (v i)…` → `le near min zero` for the true PLtoTF limit of `kind`
+    match ints? ws with
+    | some (kind :: rest) =>
+      match takeList rest with
+      | some (vals, rest) =>
+        match takeList rest with
+        | some (table, k :: rest) =>
+          match pairs? rest with
+          | some ps =>
+            if ps.length ≠ k.toNat then "bad-request" else
+            let (a, b, c, d) := checkTfmTable kind.toNat vals table (ps.map fun (v, i) => (v, i.toNat))
+            s!"le={b2i a} near={b2i b} min={b2i c} zero={b2i d}"
           | none => "bad-request"
         | _ => "bad-request"
       | none => "bad-request"
